@@ -31,7 +31,7 @@ static const char *QTN[7] = { "NULL", "PRIVATE", "TXT", "SRV", "MX", "CNAME", "A
 enum { K_LETTERS, K_QUERIES, K_ANSWERS, K_DUPS, K_CACHE_EXPECTED, K_CACHE_SAME, K_POS_CHECKS, K_MAXPEND, K_TUNW, K_DATA_ANS, K_HELD2, K_SAN = 20 };
 
 /* ---------------------------------------------------------------- alphabet */
-enum { L_PING, L_DATA_FIRST, L_DATA_LAST, L_DUP, L_TUN, L_TIME, L_RAWLOGIN, L_LAZY, L_SETFRAG, L_RELOGIN };
+enum { L_PING, L_DATA_FIRST, L_DATA_LAST, L_DUP, L_TUN, L_TIME, L_RAWLOGIN, L_LAZY, L_SETFRAG, L_RELOGIN, L_RAWPING, L_RAWDATA };
 enum { V_SAME, V_NEWID, V_NEWSRC, V_UPPER };
 typedef struct letter { int kind, a, b; char name[40]; } letter;
 static letter LT[128]; static int nlt, nlt_all;      /* letters [nlt, nlt_all) are used by warm-ups only */
@@ -84,6 +84,9 @@ static void mk_alphabet(void)
 	addl(L_TIME, 20, 0, "+20ms");
 	addl(L_TIME, 1000, 0, "+1s");
 	addl(L_RAWLOGIN, 0, 0, "rawlogin");
+	/* after the raw login: raw frames from another port of the same address, while DNS-mode queries of the session keep coming */
+	addl(L_RAWPING, 0, 0, "rawping(port2)");
+	addl(L_RAWDATA, 0, 0, "rawdata(port2)");
 	addl(L_LAZY, 1, 0, "lazy-on");
 	addl(L_LAZY, 0, 0, "lazy-off");
 	nlt_all = nlt;
@@ -330,6 +333,20 @@ static int apply(int li)
 		M.rawed = 1;
 		break;
 	}
+	case L_RAWPING:
+		if (!M.rawed) return 1;
+		plen = tm_raw(pkt, 0x30, 0, NULL, 0);
+		adv_send(&SRC_A2, SRCLEN, pkt, plen);
+		break;
+	case L_RAWDATA: {
+		uint8_t ip[100], z[200];
+		if (!M.rawed) return 1;
+		int n = tm_ippkt(ip, 40, 0x0A000002, 0xC0A80101u, 3000 + M.npkt++);
+		int zl = tm_compress(ip, n, z, sizeof z);
+		plen = tm_raw(pkt, 0x20, 0, z, zl);
+		adv_send(&SRC_A2, SRCLEN, pkt, plen);
+		break;
+	}
 	case L_SETFRAG:
 		/* a fragment size beyond what one CNAME/A answer can carry (about 140 bytes) is a user misconfiguration: the answer
 		 * format silently truncates the fragment (see ea.c, exclude_oversized_fragsize); not part of the alphabet there */
@@ -409,14 +426,16 @@ static void key(uint64_t k[2])
 static const char *lname(int l) { return LT[l].name; }
 
 /* ---------------------------------------------------------------- start states: type x lazy */
-#define NSTART 20
+#define NSTART 21
+#define C15WARM(st) ((st) >= 17 && (st) <= 19)
+#define C16WARM(st) (((st) >= 14 && (st) <= 16) || (st) == 20)
 /* start states 14..16: warmed-up sessions (NULL lazy, NULL immediate, TXT lazy) */
-static const int WARM_BASE[6] = { 0, 7, 2, /* C15 warm-ups: */ 0, 9, 4 };
+static const int WARM_BASE[7] = { 0, 7, 2, /* C15 warm-ups: */ 0, 9, 4, /* C16 again: PRIVATE (type 65399), lazy */ 1 };
 static void start_desc(int st, char *b, size_t n)
 {
 	int base = st >= 14 ? WARM_BASE[st - 14] : st;
 	snprintf(b, n, "session logged in with -T %s, %s mode%s", QTN[base % 7], base < 7 ? "lazy" : "immediate",
-		 st >= 17 ? ", warmed up: N(200), a 1000-byte packet on the server's tun, four fragments fetched and acknowledged (answer cache full and wrapped, fifth fragment outstanding)" :
+		 C15WARM(st) ? ", warmed up: N(200), a 1000-byte packet on the server's tun, four fragments fetched and acknowledged (answer cache full and wrapped, fifth fragment outstanding)" :
 		 st >= 14 ? ", warmed up: 17 idle pings, 7 one-fragment packets each way (both 3-bit sequence numbers about to wrap, 24+ pings in the server's query memory)" : "");
 }
 static int apply(int li);
@@ -466,7 +485,7 @@ static void boot(int st0)
 	handshake();
 	for (int i = 0; i < NPEND; i++) if (M.pending[i].used) vw_fatal("start state: handshake query left unanswered");
 	adv_clear();
-	if (st0 >= 17) {
+	if (C15WARM(st0)) {
 		int ln = letter_by_name("N(200)"), lt = letter_by_name("tun(1000B)"), lp = letter_by_name("ping(ack)");
 		apply(ln); apply(lt);
 		for (int i = 0; i < 4; i++) apply(lp);
@@ -533,11 +552,12 @@ int main(int argc, char **argv)
 	}
 	hc_quiet();
 	if (thorough) for (int s = 0; s < 14; s++) STARTS[nstarts++] = s;
-	else { int q[] = { 0, 7, 2, 5, 4 }; for (int i = 0; i < 5; i++) STARTS[nstarts++] = q[i]; }
+	else { int q[] = { 0, 7, 2, 5, 4, 1 }; for (int i = 0; i < (is16 ? 6 : 5); i++) STARTS[nstarts++] = q[i]; }
 	/* warmed-up sessions: C16 only (re-delivery of everything the server remembers), one level shallower */
 	int nplain = nstarts;
 	if (is16) for (int s = 14; s < 17; s++) STARTS[nstarts++] = s;
-	if (is15) for (int s = 17; s < NSTART; s++) STARTS[nstarts++] = s;
+	if (is15) for (int s = 17; s <= 19; s++) STARTS[nstarts++] = s;
+	if (is16) STARTS[nstarts++] = 20;
 	xp_run_jobs(nstarts * nlt, jobn, a.workers);
 	{ char names[3000] = ""; for (int i = 0; i < nlt && i < 40; i++) { strcat(names, LT[i].name); strcat(names, i + 1 < nlt ? " | " : ""); } xp_sample("alphabet (%d letters): %s", nlt, names); }
 	(void)nplain;
